@@ -8,6 +8,7 @@
 From Coq Require Import Permutation.
 From CG Require Import Base.Prelude Model.Dfa Spec.DotRead Spec.DotSpec Model.Dot
      Proofs.DotLex Proofs.DotParse Proofs.DotDfaMain Proofs.DotRegex Proofs.DotRegexTotal.
+From CG Require Model.Regex Model.DotOfRegex.
 
 (** The code as it is now (after commit 0e66d33), on the automata [minimize] returns -- well formed
     ([wf_cdfa]) and with start state 0 ([starts_at_zero]: what [renumber_states] guarantees), both
@@ -111,6 +112,23 @@ Check C16_regex_dot :
     exists text g, Dot.of_regex pool r = Ok text /\ DotRead.read text = Some g
                    /\ regex_ok g (spec_pool pool) (spec_items r).
 Print Assumptions C16_regex_dot.
+
+(** The same stated over the types of the regex package ([Model/Regex.v]: the model of
+    [Regex::from_expr] and its intern pool), through the forgetful view [Model/DotOfRegex.v]. *)
+Theorem C16_regex_dot_model :
+  forall (P : Regex.pool) (R : Regex.regex),
+    rx_total_b (DotOfRegex.conv_pool P) (DotOfRegex.conv_regex R) = true ->
+    rx_wf_b (DotOfRegex.conv_pool P) (DotOfRegex.conv_regex R) = true ->
+    exists text g, DotOfRegex.regex_to_dot P R = Ok text /\ DotRead.read text = Some g
+                   /\ regex_ok g (spec_pool (DotOfRegex.conv_pool P)) (spec_items (DotOfRegex.conv_regex R)).
+Proof. intros P R. exact (regex_dot_current_total _ _). Qed.
+Check C16_regex_dot_model :
+  forall (P : Regex.pool) (R : Regex.regex),
+    rx_total_b (DotOfRegex.conv_pool P) (DotOfRegex.conv_regex R) = true ->
+    rx_wf_b (DotOfRegex.conv_pool P) (DotOfRegex.conv_regex R) = true ->
+    exists text g, DotOfRegex.regex_to_dot P R = Ok text /\ DotRead.read text = Some g
+                   /\ regex_ok g (spec_pool (DotOfRegex.conv_pool P)) (spec_items (DotOfRegex.conv_regex R)).
+Print Assumptions C16_regex_dot_model.
 
 (** The code before commit 0e66d33, when no literal, description or nonterminal name contains a
     double quote or a backslash. *)
